@@ -4,9 +4,9 @@
    the code the clock is sampled at particular statements, and a request to the node can take
    any time: scheduleAttestations / scheduleProposals read chainTimeService.CurrentSlot() AFTER
    the AttesterDuties / ProposerDuties answer has arrived and filter "past slot" / "current slot
-   when told not to" against that value; scheduleSyncCommitteeMessages computes the window's lower
-   bound BEFORE its SyncCommitteeDuties request and tests "current slot when told not to" after
-   it; refreshAttesterDutiesForEpoch decides whether the current slot's job was cancelled before
+   when told not to" against that value; scheduleSyncCommitteeMessages computes the window BEFORE its
+   SyncCommitteeDuties request, and after it clamps the first slot to the current slot once more
+   and tests "current slot when told not to"; refreshAttesterDutiesForEpoch decides whether the current slot's job was cancelled before
    the request.  This file writes the operations once more with one request kind (attester /
    proposer duties of an epoch, sync committee duties of a period) answered late:
 
@@ -51,7 +51,8 @@ Section Delay.
   Let p := c_ct c.
 
   (* scheduleSyncCommitteeMessages with the two clock readings apart: [cur0] before the request
-     (Altair guard, firstEpoch / firstSlot clamps), [cur1] after it (the loop's current-slot test) *)
+     (Altair guard, firstEpoch / firstSlot clamps), [cur1] after it (firstSlot clamped once more
+     -- "the requests above may have taken us into a later slot" -- and the loop's current-slot test) *)
   Definition sched_sync2 (altair_epoch cur0 cur1 : N) (e : env) (epoch : N) (notcur : bool) (t : table) : table :=
     if negb (e_vals e) then t else
     if cur_epoch c cur0 <? altair_epoch then t else
@@ -61,10 +62,12 @@ Section Delay.
     | [] => t
     | _ =>
       let pay := map (fun v => (v, 0, 0)) (sort_by (fun v => v) (dedup vals)) in
+      (* if firstSlot < CurrentSlot() { firstSlot = CurrentSlot() }, after the duties and accounts *)
+      let fs1 := if fs <? cur1 then cur1 else fs in
       fold_left (fun t slot =>
                    if (slot =? cur1) && notcur then t
                    else tsched t {| j_name := JSync slot; j_time := sync_time c slot; j_pay := pay |})
-                (slot_range fs ls) t
+                (slot_range fs1 ls) t
     end.
 
   (* the calls, up to the request *)
